@@ -20,12 +20,16 @@ func segChar(c byte) bool {
 	return verifrt.Or(isAlnum(c), verifrt.Or(verifrt.Or(c == '.', c == '-'), verifrt.Or(c == '_', c == '~')))
 }
 
-func symString(maxlen int, class func(byte) bool) string {
-	s := verifrt.String(verifrt.Len(maxlen))
-	for i := 0; i < len(s); i++ {
-		verifrt.Assume(class(s[i]))
+const hostAlpha = "-.0123456789ABCDEFGHIJKLMNOPQRSTUVWXYZabcdefghijklmnopqrstuvwxyz"
+const segAlpha = "-.0123456789ABCDEFGHIJKLMNOPQRSTUVWXYZ_abcdefghijklmnopqrstuvwxyz~"
+
+func symString(maxlen int, alpha string) string {
+	n := verifrt.Len(maxlen)
+	b := make([]byte, n)
+	for i := range b {
+		b[i] = verifrt.ByteIn(alpha)
 	}
-	return s
+	return string(b)
 }
 
 func refLower(s string) string {
@@ -111,7 +115,7 @@ func H_C20_paths(schemeSel, hostSel, k, seglen int) {
 	host := refHosts[hostSel]
 	segs := make([]string, k)
 	for i := range segs {
-		segs[i] = symString(seglen, segChar)
+		segs[i] = symString(seglen, segAlpha)
 	}
 	d, err, pn := resolve(scheme, host, "", pathOf(segs))
 	verifrt.Assert(!pn, "paths-no-panic")
@@ -126,12 +130,13 @@ func H_C20_joinchat(schemeSel, toklen int) {
 	scheme := []string{"", "http", "https"}[schemeSel]
 	first := "joinchat"
 	if verifrt.Bool() {
-		first = verifrt.String(8)
-		for i := 0; i < 8; i++ {
-			verifrt.Assume(segChar(first[i]))
+		fb := make([]byte, 8)
+		for i := range fb {
+			fb[i] = verifrt.ByteIn(segAlpha)
 		}
+		first = string(fb)
 	}
-	segs := []string{first, symString(toklen, segChar)}
+	segs := []string{first, symString(toklen, segAlpha)}
 	d, err, pn := resolve(scheme, "t.me", "", pathOf(segs))
 	verifrt.Assert(!pn, "joinchat-no-panic")
 	if pn {
@@ -143,7 +148,7 @@ func H_C20_joinchat(schemeSel, toklen int) {
 // H_C20_hosts: arbitrary host text (look-alikes included) with an optional port, two fixed path shapes.
 func H_C20_hosts(schemeSel, hostlen, portSel, pathSel int) {
 	scheme := []string{"http", "https"}[schemeSel]
-	host := symString(hostlen, hostChar)
+	host := symString(hostlen, hostAlpha)
 	port := []string{"", ":", ":443", ":8080"}[portSel]
 	segs := [][]string{{"Durov"}, {"joinchat", "AbC-12_"}, {}}[pathSel]
 	d, err, pn := resolve(scheme, host, port, pathOf(segs))
@@ -160,11 +165,11 @@ func H_C20_schemeless(hostlen, k int) {
 	if verifrt.Bool() {
 		host = refHosts[verifrt.Choice(len(refHosts))]
 	} else {
-		host = symString(hostlen, hostChar)
+		host = symString(hostlen, hostAlpha)
 	}
 	segs := make([]string, k)
 	for i := range segs {
-		segs[i] = symString(2, segChar)
+		segs[i] = symString(2, segAlpha)
 	}
 	d, err, pn := resolve("", host, "", pathOf(segs))
 	verifrt.Assert(!pn, "schemeless-no-panic")
